@@ -46,7 +46,7 @@ PROPS["C16"] = {
     "level_text": "PARTIAL by nature: the model has no feature parameter at all (every model function is configuration-free by construction), and the only feature-conditional computations are (1) Vec capacity estimates in radix output, which are not an input of any model function, and (2) the initial guess of the root iteration, for which the theorem root_config_independent (C11: the result is the floor root for EVERY guess >= 1) gives equality of results across std/no_std. That every documented configuration COMPILES and produces byte-identical transcripts is observed by exhaustive enumeration: cargo check of all 20 feature sets of ci/test_full.sh and harness transcripts (cross-section of all streams, all radix/root cases) across std/no_std x features x debug/release.",
     "level_note": "Trusted: Lean kernel; cargo/rustc; harness feature plumbing. Compile success and transcript identity are exhaustive observations over the finite configuration set.",
     "technique": "Lean 4 configuration-independence theorems + exhaustive enumeration of the finite feature-configuration set (cargo check + byte-identical transcripts)",
-    "claimed": False,
+    
 }
 
 PROPS["C05"] = {
@@ -173,6 +173,41 @@ PROPS["C14"] = {
     "level_text": "placeholder",
     "level_note": "placeholder",
     "claimed": False,
+}
+
+PROPS["C11"] = {
+    "lean": ["NB.Props.C11"],
+    "gens": ["c11"],
+    "profiles": ["release", "debug"],
+    "special": lambda ctx: __import__("c11").special(ctx),
+    "trusted": ["to_u64 fast path: num-integer's primitive Roots for u64 modelled by the spec-level bisection floor root (NB.Roots.floorRoot, proved = Nat.nthRoot)",
+                "float arm of the std guess is abstract (F64.Valid: a finite f64 evaluation yields a guess >= 1; to_f64 is finite below 2^1023); the driver instantiates it with Lean's native Float",
+                "value-level model: BigUint operators / * + >> << pow bits are Nat operators (C01-C03, C07); u64 overflow of the bit-count arithmetic (needs >= 2^63 bits) not modelled"],
+    "assumptions": COMMON_ASSUME,
+    "level_text": "Theorems fixpoint_abstract_spec / fixpoint_spec (two-phase loop with saturation returns the floor root from EVERY guess >= 1, fuel g + 2^max_bits + 2 suffices), root_F_ge/lt/gt (Newton step facts, F_ge from Mathlib's Nat.nthRoot.lt_pow_go_succ_aux), nth_root_spec / nth_root_eq / sqrt_spec / cbrt_spec (n >= 1 -> r^n <= x < (r+1)^n = Nat.nthRoot, for every guess source with guesses >= 1), nostd_guess_ok and std_guess_ok (the 1<<max_bits guess, the scaled recursive guess and the fallback are >= 1; recursion depth 2 suffices), root_config_independent (std and no_std models return the same outcome for all x, n), guess_zero_panics (g >= 1 is necessary), bigint_nth_root_spec / bigint_sqrt_spec / bigint_cbrt_spec / bigint_odd_root_neg (sign transfer, imaginary and zero-degree panics). Tied to the source by a 3-way differential run (release and debug builds) over value classes x degrees x signs, and by a second harness build with num-bigint's std feature off whose C11 answers must be byte-identical.",
+    "level_note": "Trusted: Lean kernel + {propext, Classical.choice, Quot.sound}; num-integer's u64 roots modelled by the spec; IEEE float facts (finite evaluation gives a guess >= 1, to_f64 finite below 2^1023) assumed, not proved; value-level layering on C01-C03/C07; correspondence strength bounded by the generators.",
+}
+
+PROPS["C12"] = {
+    "lean": ["NB.Props.C12"],
+    "gens": ["c12"],
+    "profiles": ["release", "debug"],
+    "trusted": ["value-level model: BigUint `*` is Nat multiplication (C02); primitive exponent ops `& 1`, `>>= 1` are Nat ops",
+                "to_u64 / to_u128 are Some exactly below 2^64 / 2^128"],
+    "assumptions": COMMON_ASSUME,
+    "level_text": "Theorems pow_spec / pow_forms_spec (the pow_impl! loop returns exactly x^e for ALL x, e, in all four operand forms; one macro body for u8..u128/usize), pow_sq_phase and pow_acc_phase (invariants of the trailing-zero squaring phase and the accumulate phase), pow_fuel_sufficient (both loops terminate within the bit length of the exponent), pow_zero_zero (0^0 = 1), pow_big_spec / pow_big_narrowing (BigUint exponents: short-cuts, u64/u128 narrowing value-preserving, capacity panic exactly when x >= 2 and e >= 2^128), bigint_pow_spec / bigint_pow_big_spec / bigint_pow_sign / powsign_spec (BigInt: exactly x^e on the integers, negative iff x < 0 and e odd). Tied to the source by a 3-way differential run: exponents 0..300 exhaustively for 8 bases, every 10-bit exponent pattern, all 7 exponent types x 4 forms + inherent method, u64/u128 narrowing edges.",
+    "level_note": "Trusted: Lean kernel + {propext, Classical.choice, Quot.sound}; value-level layering on C02 (multiplication); exponents >= 2^32 with |base| >= 2 cannot be executed (memory) and are covered by the theorem only; correspondence strength bounded by the generators.",
+}
+
+PROPS["C13"] = {
+    "lean": ["NB.Props.C13"],
+    "gens": ["c13"],
+    "profiles": ["release", "debug"],
+    "trusted": ["value-level model: BigUint/BigInt operators >> << - / % * + cmp and trailing_zeros are Nat/Int operators (C01-C03, C07); BigInt `/` is Int.tdiv",
+                "num-integer 0.1.47 default Integer::extended_gcd modelled from its pinned source"],
+    "assumptions": COMMON_ASSUME,
+    "level_text": "Theorems gcd_spec (Stein's algorithm as coded = Nat.gcd for ALL a, b; stein_loop_spec: invariant, termination, no underflow; twos_valuation), gcd_zero_cases, lcm_spec / gcd_lcm_spec (= Nat.lcm, division by the gcd never fails), bigint_gcd_spec / bigint_lcm_spec / bigint_gcd_lcm_spec (= Int.gcd / Int.lcm, non-negative), egcd_spec / egcd_loop_spec (num-integer's loop: a*x + b*y = g and g = Int.gcd a b, all signs, fuel |b|+1 suffices), egcd_lcm_spec, is_multiple_of_spec / multiple_of_zero / bigint_is_multiple_of_spec (divisibility; only zero is a multiple of zero), next/prev_multiple_spec + _char (least/greatest multiple; divzero iff b = 0; no underflow), bigint_mod_floor_spec (= Int.fmod), bigint_next/prev_multiple_spec + _char (a + (-a) fmod b, a - a fmod b), is_even_spec / is_odd_spec (first digit decides), inc_spec / dec_spec. Tied to the source by a 3-way differential run over zeros, equal, divisibility, common powers of two spanning digits, Fibonacci neighbours, complete sign tables.",
+    "level_note": "Trusted: Lean kernel + {propext, Classical.choice, Quot.sound}; value-level layering on C01-C03/C07; Bezout coefficients are compared implementation-vs-model (exact) and implementation-vs-oracle through the identity a*x+b*y = gcd; correspondence strength bounded by the generators.",
 }
 
 NOT_CLAIMED = {}
